@@ -45,11 +45,18 @@ PathTab ==
    pdm  |-> [text |-> "/dm",          segs |-> <<Lit("dm")>>],
    pdr  |-> [text |-> "/dr",          segs |-> <<Lit("dr")>>],
    prb  |-> [text |-> "/rb",          segs |-> <<Lit("rb")>>],
+   prs  |-> [text |-> "/rs",          segs |-> <<Lit("rs")>>],
+   prj  |-> [text |-> "/rj",          segs |-> <<Lit("rj")>>],
+   pre  |-> [text |-> "/re",          segs |-> <<Lit("re")>>],
+   pt2  |-> [text |-> "/t2",          segs |-> <<Lit("t2")>>],
    ptt  |-> [text |-> "/tt",          segs |-> <<Lit("tt")>>],
    psp  |-> [text |-> "\"/s p\"",     segs |-> <<Lit("s p")>>],         \* a quoted path with a blank: refused (BlankPaths)
+   pbad8 |-> [text |-> "/b\\xFF",     segs |-> <<Lit("b?")>>],          \* the harness writes the byte 0xFF: not UTF-8, refused
    pempty |-> [text |-> "/e/{}",      segs |-> <<Lit("e"), Par("")>>]]
 PathIds == DOMAIN PathTab
 BlankPaths == {"psp"}     \* a blank separates the fields of an interaction id; a path may not contain one
+\* invalid UTF-8 would be written as U+FFFD: paths that differ in such bytes would share one interaction id
+RefusedPaths == BlankPaths \cup {"pbad8"}
 
 \* kind: schema | enum | text | regex
 \* root: tokenType of the root node as the catalog reports it; rtype: its "type"
@@ -66,6 +73,7 @@ BodyTab ==
    str    |-> [text |-> "\"s\"",                 kind |-> "schema", root |-> "string", rtype |-> "string",  uses |-> {}, inh |-> {}, enums |-> {}, keys |-> {}, props |-> <<>>],
    ref1   |-> [text |-> "@t1",                   kind |-> "schema", root |-> "reference", rtype |-> "@t1",  uses |-> {"@t1"}, inh |-> {}, enums |-> {}, keys |-> {}, props |-> <<>>],
    refu   |-> [text |-> "@nope",                 kind |-> "schema", root |-> "reference", rtype |-> "@nope", uses |-> {"@nope"}, inh |-> {}, enums |-> {}, keys |-> {}, props |-> <<>>],
+   hdr2   |-> [text |-> "{\"H\": \"w\", \"G\": 2}", kind |-> "schema", root |-> "object", rtype |-> "object",  uses |-> {}, inh |-> {}, enums |-> {}, keys |-> {"H", "G"}, props |-> <<[key |-> "H", tt |-> "string", ty |-> "string"], [key |-> "G", tt |-> "number", ty |-> "integer"]>>],
    hdr    |-> [text |-> "{\"H\": \"v\"}",        kind |-> "schema", root |-> "object", rtype |-> "object",  uses |-> {}, inh |-> {}, enums |-> {}, keys |-> {"H"}, props |-> <<[key |-> "H", tt |-> "string", ty |-> "string"]>>],
    pid    |-> [text |-> "{\"id\": 1}",           kind |-> "schema", root |-> "object", rtype |-> "object",  uses |-> {}, inh |-> {}, enums |-> {}, keys |-> {"id"}, props |-> <<[key |-> "id", tt |-> "number", ty |-> "integer"]>>],
    ordbad |-> [text |-> "{\n  \"items\": [@item],\n  \"n\": 1 // {min: 5}\n}", kind |-> "schema", root |-> "object", rtype |-> "object", uses |-> {"@item"}, inh |-> {}, enums |-> {}, keys |-> {"items", "n"},
